@@ -323,6 +323,58 @@ pub fn run(tier: &str) -> Result<Report, String> {
         rep.add_count("two_network_histories", n_pairs as u64);
         rep.violations.extend(bad.into_iter().take(20));
     }
+    // the extended entry points: context sets inside the valid colours AND raw ones (whole symbolic space, a raw
+    // state variable): the sanitised result is the raw result moved to the canonical context (lib-param-bn's
+    // transfer_from as the independent reference), single and batch entry points, k = 1, 2, 4
+    {
+        use biodivine_hctl_model_checker::model_checking as mc;
+        use std::collections::HashMap;
+        for b in nets.iter().filter(|b| ["con2", "unf2", "inp2", "imp1"].contains(&b.name.as_str())) {
+            let fams = crate::sweep::label_families(b, 1);
+            let v0 = b.spec.vars[0].clone();
+            let texts: Vec<String> = vec!["%raw%".into(), format!("%rawa% | {v0}"), "EF %rawa%".into(), "~ %rawa%".into(), "%p% & %rawa%".into(), "%p%".into(), "AX %p%".into(), "!{x} in %rawa%: AX ({x} | %p%)".into(), "3{x} in %p%: @{x}: %raw%".into()];
+            for k in [1u16, 2, 4] {
+                let g = b.graph_with_k(k);
+                let sc = g.symbolic_context();
+                let sets: HashMap<String, GraphColoredVertices> = HashMap::from([
+                    ("raw".to_string(), GraphColoredVertices::new(sc.mk_constant(true), sc)),
+                    ("rawa".to_string(), GraphColoredVertices::new(sc.mk_state_variable_is_true(g.variables().next().unwrap()), sc)),
+                    ("p".to_string(), b.mk_set_in(&g, &fams[0].1.wild[0])),
+                ]);
+                let canon = sc.as_canonical_context();
+                let ts: Vec<&str> = texts.iter().map(|s| s.as_str()).collect();
+                let r = guarded(AssertUnwindSafe(|| (mc::model_check_multiple_extended_formulae(ts.clone(), &g, &sets), mc::model_check_multiple_extended_formulae_dirty(ts.clone(), &g, &sets))));
+                rep.evaluations += texts.len() as u64 * 4;
+                let mut what: Option<String> = None;
+                match r {
+                    Ok((Ok(clean), Ok(dirty))) if clean.len() == texts.len() && dirty.len() == texts.len() => {
+                        for i in 0..texts.len() {
+                            let single = guarded(AssertUnwindSafe(|| mc::model_check_extended_formula(&texts[i], &g, &sets)));
+                            let moved = canon.transfer_from(dirty[i].as_bdd(), sc);
+                            match (moved, single) {
+                                (Some(m), Ok(Ok(sg))) => {
+                                    if &m != clean[i].as_bdd() {
+                                        what = Some(format!("`{}` (k={k}, batch position {i}): sanitised result has {} elements, the raw result {}", texts[i], clean[i].exact_cardinality(), dirty[i].exact_cardinality()));
+                                    } else if &m != sg.as_bdd() {
+                                        what = Some(format!("`{}` (k={k}): model_check_extended_formula has {} elements, the raw result {}", texts[i], sg.exact_cardinality(), dirty[i].exact_cardinality()));
+                                    }
+                                }
+                                (None, _) => what = Some(format!("`{}` (k={k}): the raw result cannot be expressed over the canonical variables", texts[i])),
+                                (_, other) => what = Some(format!("`{}` (k={k}): model_check_extended_formula fails: {:?}", texts[i], other.map(|x| x.map(|_| "ok")))),
+                            }
+                            if what.is_some() {
+                                break;
+                            }
+                        }
+                    }
+                    other => what = Some(format!("k={k}: extended batch evaluation fails: {:?}", other.map(|x| (x.0.map(|v| v.len()), x.1.map(|v| v.len()))))),
+                }
+                if let Some(w) = what {
+                    rep.violations.push(Violation { case: json!({"kind": "none"}), what: format!("extended entry points on {} with context sets raw / rawa / p: {w}", b.name), size: 20 });
+                }
+            }
+        }
+    }
     // wide models (more than 2^53 state x colour pairs), in child processes
     {
         let mut jobs = vec![];
@@ -353,7 +405,7 @@ pub fn run(tier: &str) -> Result<Report, String> {
         rep.set("wide_models", json!(wide));
     }
     rep.sample(json!({"network": "con2", "formula": "(!{x}: (3{y}: ((@{x}: (AX {y})) & (EF {x}))))", "k": [2, 3, 5], "check": "model_check_formula == model_check_formula_dirty point-wise; BDD over the variables of SymbolicContext::new; identical for all k; usable with SymbolicAsyncGraph::new"}));
-    rep.rule = format!("every closed plain formula with <= {m} nodes and every plain template formula on {which:?}, on graphs with k = d, d+1, d+3 spare variable sets (d = quantifier nesting depth): sanitised result == raw result on every state x valid colour == explicit-state oracle; expressed over exactly the variables of SymbolicContext::new(network); subset of and usable with SymbolicAsyncGraph::new(network); BDD-identical for all k; every multi-colour network additionally with the unit set of the graph restricted (SymbolicAsyncGraph::restrict) to every second valid colour, where raw and sanitised results must also stay inside the restricted unit set; and every ordered pair and triple over a pool of 8 formulae of different heights through model_check_multiple_formulae vs model_check_multiple_formulae_dirty, position by position; plus two-network histories (ordered pairs of 5 networks with identical variable names and parameter signature, sanitising calls on the first, then all obligations for 7 formulae on the second, on one fresh OS thread); plus wide synthetic models (> 2^53 pairs; results that are everything but one state, single states, ...): sanitised == raw result transferred to the canonical context by lib-param-bn, single and batch entry points, k = 1, 3. distinct_nontrivial = number of (formula, network) pairs");
+    rep.rule = format!("every closed plain formula with <= {m} nodes and every plain template formula on {which:?}, on graphs with k = d, d+1, d+3 spare variable sets (d = quantifier nesting depth): sanitised result == raw result on every state x valid colour == explicit-state oracle; expressed over exactly the variables of SymbolicContext::new(network); subset of and usable with SymbolicAsyncGraph::new(network); BDD-identical for all k; every multi-colour network additionally with the unit set of the graph restricted (SymbolicAsyncGraph::restrict) to every second valid colour, where raw and sanitised results must also stay inside the restricted unit set; and every ordered pair and triple over a pool of 8 formulae of different heights through model_check_multiple_formulae vs model_check_multiple_formulae_dirty, position by position; plus two-network histories (ordered pairs of 5 networks with identical variable names and parameter signature, sanitising calls on the first, then all obligations for 7 formulae on the second, on one fresh OS thread); plus the extended entry points with context sets inside and outside the valid colours (9 formulae, k = 1, 2, 4, single and batch) against lib-param-bn's transfer of the raw result; plus wide synthetic models (> 2^53 pairs; results that are everything but one state, single states, ...): sanitised == raw result transferred to the canonical context by lib-param-bn, single and batch entry points, k = 1, 3. distinct_nontrivial = number of (formula, network) pairs");
     Ok(rep)
 }
 
